@@ -613,6 +613,11 @@ func allAtoms(as []Atom, pred func(Atom) bool) bool {
 // dependsOn reports whether value v is (transitively, within the function) computed from target.
 // It follows operands of pure value instructions, loads of local allocs (via their stores), and phis.
 func dependsOn(v ssa.Value, isTarget func(ssa.Value) bool) bool {
+	return dependsOnCut(v, isTarget, nil)
+}
+
+// dependsOnCut is dependsOn that does not look behind values for which cut returns true.
+func dependsOnCut(v ssa.Value, isTarget func(ssa.Value) bool, cut func(ssa.Value) bool) bool {
 	seen := map[ssa.Value]bool{}
 	var walk func(v ssa.Value) bool
 	walk = func(v ssa.Value) bool {
@@ -622,6 +627,9 @@ func dependsOn(v ssa.Value, isTarget func(ssa.Value) bool) bool {
 		seen[v] = true
 		if isTarget(v) {
 			return true
+		}
+		if cut != nil && cut(v) {
+			return false
 		}
 		switch x := v.(type) {
 		case *ssa.UnOp:
@@ -922,6 +930,14 @@ func (p *Prog) modEdges() map[*ssa.Function][]*ssa.Function {
 					edges[f] = append(edges[f], cf)
 				}
 			}
+			// function values used as operands (callbacks such as sync.Once.Do(f)) may be called
+			for _, op := range i.Operands(nil) {
+				if fv, ok := (*op).(*ssa.Function); ok && fv.Blocks != nil && strings.HasPrefix(pkgPathOf(fv), Mod) {
+					if ci, isCall := i.(ssa.CallInstruction); !isCall || ci.Common().Value != ssa.Value(fv) {
+						edges[f] = append(edges[f], fv)
+					}
+				}
+			}
 			ci, ok := i.(ssa.CallInstruction)
 			if !ok {
 				return
@@ -1128,4 +1144,12 @@ func resolveLocal(v ssa.Value) ssa.Value {
 		v = vals[0]
 	}
 	return v
+}
+
+// isPkgInit: f is a package initialiser (synthetic "init" or a source-level init#N).
+func isPkgInit(f *ssa.Function) bool {
+	if f == nil || f.Signature.Recv() != nil || f.Parent() != nil {
+		return false
+	}
+	return f.Name() == "init" || strings.HasPrefix(f.Name(), "init#")
 }
